@@ -220,7 +220,7 @@ class RainfallClimateNetwork(ClimateNetwork):
 
         m = len(rainfall) * len(rainfall.T)
 
-        onelist = rainfall.reshape(m)
+        onelist = rainfall.flatten()
 
         onelist = onelist[onelist.sort()][0]
 
